@@ -9,3 +9,6 @@ mod rotate;
 
 pub use self::core::{EXTRA_LEN, TAG_LEN};
 pub use common::*;
+
+#[cfg(vpncloud_verif)]
+pub use self::{core::verif as verif_core, init::verif as verif_init, rotate::verif as verif_rotate};
